@@ -52,7 +52,7 @@ fn run(input: RunInput) -> ScenFuture {
         let lat_min_us = if constant { lat_max_us } else { 200.min(lat_max_us) };
         let d_in = w.flag("inbound_default", 0.7).then(|| w.param("inbound_default_ms", 0, 3000) as u64);
         let d_out = w.flag("outbound_default", 0.7).then(|| w.param("outbound_default_ms", 0, 3000) as u64);
-        let n_calls = w.param("calls", 1, 30) as u64;
+        let n_calls = w.param("calls", 1, if w.tier == Tier::Quick { 30 } else { 80 }) as u64;
         // the transport's idle timeout is no request deadline: with keep-alives flowing, a handler
         // may take longer than it (in part of the runs it is shorter than most handler durations)
         let idle_ms = if w.flag("short_transport_idle_timeout", 0.4) { w.param("idle_ms", 600, 5_000) as u64 } else { 60_000 };
